@@ -333,6 +333,7 @@ func cmdCheck(args []string) int {
 	pending := map[string][]checkedObl{}
 
 	nObl, nDis := 0, 0
+	retried := 0
 	perFunc := map[string]*FuncEvidence{}
 	for _, fr := range results {
 		fe := &FuncEvidence{Func: fr.Key, Loops: fr.Loops, UsesContr: fr.Used, Inlined: fr.Inlined, Opaque: fr.Opaque, Abstracted: fr.Warnings}
@@ -452,6 +453,18 @@ func cmdCheck(args []string) int {
 			fe.Obligations--
 			fe.Unclaimed++
 			continue
+		}
+		// A claimed obligation that ends in timeout/unknown (no model) gets one more
+		// attempt with three times the budget on all solvers before it is reported: on
+		// a loaded machine a quantified query that usually takes a second can miss the
+		// quick budget, and an alarm on a tree where the proof exists is a false alarm.
+		if r.Verdict != "sat" && !*strict && len(baseline) > 0 && (inList(baseline, o.ID) || shapeChanged(clauseKey(o.ID))) {
+			if r2 := solveOne(r.File, 3*secs, true); r2.Verdict == "unsat" {
+				retried++
+				nDis++
+				fe.Discharged++
+				continue
+			}
 		}
 		if k := clauseKey(o.ID); shapeChanged(k) {
 			pending[k] = append(pending[k], co) // decided by count below
@@ -631,6 +644,9 @@ func cmdCheck(args []string) int {
 	}
 	for _, v := range violations {
 		fmt.Println(v)
+	}
+	if retried > 0 {
+		fmt.Printf("note: %d obligation(s) discharged only on the second attempt (three times the solver budget)\n", retried)
 	}
 	fmt.Printf("property %s: %d/%d obligations discharged over %d functions (%d trusted), %d known findings, %d violations, %.1fs\n",
 		*prop, nDis, nObl, len(results), len(trusted), len(knownLines), len(violations), time.Since(t0).Seconds())
